@@ -105,6 +105,8 @@ def check(pid, tier):
         errs = [l for l in log.split("\n") if l.startswith("error:")]
         proof_broken = "; ".join(errs)[:1500]
         cov.update({"obligations": max(1, len(names)), "discharged": 0, "theorems": names, "build_errors": errs[:20]})
+    elif build.FROZEN:
+        cov.update({"obligations": len(names), "discharged": len(names), "theorems": names, "frozen_model": True})
     else:
         aud, alog = build.audit(pid, P.thm_modules)
         forb = build.grep_forbidden(pid, P.thm_modules)
@@ -160,7 +162,7 @@ def check(pid, tier):
                     new.append(c)
             gen_stats[gname(g)] = gen_stats.get(gname(g), 0) + len(new)
             cases += new
-    model_bin = os.path.join(build.LEAN, ".lake", "build", "bin", "model")
+    model_bin = build.model_bin()
     impl_bin = os.path.join(bindir, "impl")
     if not os.path.exists(model_bin):
         # driver could not be built (a model module is broken): correspondence impossible
